@@ -33,20 +33,27 @@ def gen_effects_pkg(rng, base, name, nfn):
     return sway.write_pkg(base, name, {"lib.sw": src + tests})
 
 
-def pairs_from_dump(path):
-    pend, out = {}, []
+def pairs_from_dump(path, max_ops=None):
+    """(pass, enter, exit) per pass application; stops reading once max_ops ops of modelled passes were seen"""
+    pend, out, seen_ops = {}, [], 0
+    def emit(p, e, x):
+        nonlocal seen_ops
+        if p in PASS:
+            out.append((p, e, x)); seen_ops += len(e["ops"]["ops"])
     for r in A.read_dump(path):
         if r["kind"] != "asm_pass": continue
         v, tid = r["v"], r["tid"]
         if v["at"] == "enter":
-            if tid in pend: out.append((pend[tid]["pass"], pend[tid], pend[tid]))   # early return: identity
+            if tid in pend: emit(pend[tid]["pass"], pend[tid], pend[tid])   # early return: identity
             pend[tid] = v
         else:
             e = pend.pop(tid, None)
             if e is None or e["pass"] != v["pass"]:
                 raise ValueError("unpaired exit record for pass %s" % v["pass"])
-            out.append((v["pass"], e, v))
-    for e in pend.values(): out.append((e["pass"], e, e))
+            emit(v["pass"], e, v)
+        if max_ops is not None and seen_ops > max_ops:
+            return out
+    for e in pend.values(): emit(e["pass"], e, e)
     return out
 
 
@@ -71,7 +78,9 @@ def run(ctx):
         std_sel = [n for n in QUICK_STD if n in std_names]
         e2e_sel = ctx.rng.sample(e2e_names, min(QUICK_E2E * 3, len(e2e_names)))
     else:
-        std_sel, e2e_sel = std_names, e2e_names
+        # asm_pass dumps of the big std test packages run to gigabytes: keep the ones below 700 source lines
+        std_sel = [n for n in std_names if A.src_lines(os.path.join(C08.ILT, n)) < 700]
+        e2e_sel = e2e_names
     pkgs, kinds_of = [], {}
     for n in std_sel:
         d = A.prepare_pkg(os.path.join(C08.ILT, n), base, "std_" + n.replace("/", "_"))
@@ -149,10 +158,11 @@ def run(ctx):
     for d in order:
         dump = ra[d][1]
         try:
-            ps = pairs_from_dump(dump)
+            ps = pairs_from_dump(dump, max_ops=4 * budget)
         except ValueError as e:
             ctx.violation("dump-pairing", {"pkg": d, "error": str(e)}, "asm_pass dump cannot be paired: %s" % e, no_input=True)
             continue
+        if not ctx.quick and os.path.exists(dump): os.remove(dump)    # dumps are large
         for p, e, x in ps:
             if p not in PASS or not e["ops"]["ops"]: continue
             npairs += 1
